@@ -18,7 +18,7 @@ from dataclasses import dataclass, field
 from typing import Any, Callable, Optional
 
 from .astutil import call_name
-from .frontend import ClassInfo, FunctionInfo, Program, norm
+from .frontend import ClassInfo, FunctionInfo, Program, norm, walk_local
 
 
 class _Unknown:
@@ -177,6 +177,12 @@ class _Loop(Exception):
         self.kind = kind
 
 
+class _GenStop(Exception):
+    """the consumer of a lazily interpreted generator left its loop (break / return / raise): the generator is abandoned"""
+    def __init__(self, pending=None):
+        self.pending = pending
+
+
 class Budget(Exception):
     pass
 
@@ -271,6 +277,77 @@ class Interp:
         return v
 
     # ------------------------------------------------------------------ statements
+    def _lazy_generator_loop(self, st: ast.For, env: dict, depth: int) -> bool:
+        """for x in self.gen(...):  with gen a generator method of the object's class - interpreted as a coroutine: the loop body runs at every yield,
+        so what the generator does between two yields (consulting a budget, advancing a counter) interleaves with the body as in Python.
+        Returns False when the loop is not of that form (the caller falls back to the eager reading)."""
+        it = st.iter
+        if not (isinstance(it, ast.Call) and isinstance(it.func, ast.Attribute) and isinstance(it.func.value, ast.Name) and it.func.value.id == "self"
+                and self.cls is not None and depth < self.max_depth and not st.orelse):
+            return False
+        target = self.prog.lookup_method(self.cls, it.func.attr)
+        if target is None or not isinstance(target.node, ast.FunctionDef) or not _is_generator(target.node) or target in self.fn_stack:
+            return False
+        if any(isinstance(y, ast.YieldFrom) for y in walk_local(target.node)):
+            return False
+        args = [self.ev(a_, env, depth) for a_ in it.args]
+        kwargs = {k_.arg: self.ev(k_.value, env, depth) for k_ in it.keywords if k_.arg}
+        params = target.params[1:]
+        cenv = {"self": env.get("self", Sym("self"))}
+        for k_, v_ in env.items():
+            if k_.startswith("self."):
+                cenv[k_] = v_
+        a = target.node.args
+        for p_, d_ in zip([x.arg for x in a.args][len(a.args) - len(a.defaults):], a.defaults):
+            cenv[p_] = self.ev(d_, {}, depth)
+        for p_, v_ in zip(params, args):
+            cenv[p_] = v_
+        cenv.update(kwargs)
+
+        def consume(value):
+            for k_, v_ in cenv.items():          # the generator's view of the object is the consumer's
+                if k_.startswith("self."):
+                    env[k_] = v_
+            self.assign(st.target, value, env, st)
+            self.fn_stack.append(consumer_fn)
+            hooks.append((None, None))           # yields of the consumer's own body are not the generator's
+            try:
+                self.block(st.body, env, depth)
+            except _Loop as l_:
+                if l_.kind == "break":
+                    raise _GenStop()
+            except _Return as r_:
+                raise _GenStop(r_)
+            finally:
+                hooks.pop()
+                self.fn_stack.pop()
+                for k_, v_ in env.items():
+                    if k_.startswith("self."):
+                        cenv[k_] = v_
+
+        consumer_fn = self.fn_stack[-1]
+        hooks = self.__dict__.setdefault("_yield_hooks", [])
+        hooks.append((target, consume))
+        self.fn_stack.append(target)
+        pending = None
+        try:
+            self.block(target.node.body, cenv, depth + 1)
+        except _GenStop as g_:
+            pending = g_.pending
+        except _Raise:
+            raise
+        except _Return:
+            pass                                  # the generator returned: the loop is over
+        finally:
+            self.fn_stack.pop()
+            hooks.pop()
+            for k_, v_ in cenv.items():
+                if k_.startswith("self."):
+                    env[k_] = v_
+        if pending is not None:
+            raise pending
+        return True
+
     def call_body(self, fn: FunctionInfo, env: dict, depth: int) -> Any:
         gen = depth > 0 and _is_generator(fn.node)
         start = len(self.trace)
@@ -320,7 +397,12 @@ class Interp:
         if isinstance(st, ast.Expr):
             v = st.value
             if isinstance(v, ast.Yield):
-                self.trace.append(Effect("yield", "", (self.ev(v.value, env, depth) if v.value is not None else None,), node=st))
+                val_ = self.ev(v.value, env, depth) if v.value is not None else None
+                hooks_ = getattr(self, "_yield_hooks", None)
+                if hooks_ and self.fn_stack and hooks_[-1][0] is self.fn_stack[-1]:
+                    hooks_[-1][1](val_)          # a 'for x in self.gen():' consumer runs its body now, between this yield and the next statement
+                else:
+                    self.trace.append(Effect("yield", "", (val_,), node=st))
             elif isinstance(v, ast.YieldFrom):
                 self.trace.append(Effect("yield", "from", (self.ev(v.value, env, depth),), node=st))
             else:
@@ -385,6 +467,8 @@ class Interp:
                 except _Loop as l:
                     if l.kind == "break":
                         break
+        elif isinstance(st, (ast.For, ast.AsyncFor)) and self._lazy_generator_loop(st, env, depth):
+            pass
         elif isinstance(st, (ast.For, ast.AsyncFor)):
             it = self.ev(st.iter, env, depth)
             if isinstance(it, dict):
